@@ -4,6 +4,7 @@ import (
 	"fmt"
 	"math/rand"
 	"sort"
+	"strings"
 
 	"verif/harness/fake"
 )
@@ -230,6 +231,31 @@ func NewWorld(rng *rand.Rand, opt WorldOptions) *World {
 			nodeFields[tn] = append(nodeFields[tn], f)
 		}
 	}
+	// an interface I0 { id, i0_c } implemented by the first two Node types; one service (its home) declares it, the
+	// common field on both implementers and every field of that type — the implementers' other fields live where
+	// they live, so a selection on the interface is spread over services
+	ifaceMembers := map[string][]string{}
+	ifaceHome := -1
+	if opt.Interfaces && k >= 2 {
+		ifaceHome = rng.Intn(n)
+		hs := w.Services[ifaceHome]
+		addNode(hs)
+		hs.Defs = append(hs.Defs, &Def{Kind: "INTERFACE", Name: "I0", Fields: []Field{{Name: "id", Type: "ID!"}, {Name: "i0_c", Type: "String"}}})
+		for _, m := range w.NodeType[:2] {
+			d := ensureNodeType(hs, m)
+			d.Ifaces = append(d.Ifaces, "I0")
+			d.Fields = append(d.Fields, Field{Name: "i0_c", Type: "String"})
+			nodeFields[m] = append(nodeFields[m], nfield{name: "i0_c", kind: fkStr, owner: ifaceHome})
+		}
+		ifaceMembers["I0"] = append([]string{}, w.NodeType[:2]...)
+		// a Node type of the home service points at it
+		tn := w.NodeType[rng.Intn(k)]
+		kind := []fieldKind{fkUnion, fkUnions}[rng.Intn(2)]
+		d := ensureNodeType(hs, tn)
+		fd := Field{Name: strings.ToLower(tn) + "_i", Type: typeOf(kind, "I0")}
+		d.Fields = append(d.Fields, fd)
+		nodeFields[tn] = append(nodeFields[tn], nfield{name: fd.Name, kind: kind, to: "I0", owner: ifaceHome})
+	}
 	// entities
 	for ti, tn := range w.NodeType {
 		em := opt.EntitiesMax
@@ -320,9 +346,15 @@ func NewWorld(rng *rand.Rand, opt WorldOptions) *World {
 				return fake.Null()
 			}
 			ms := w.Unions[to]
+			if ms == nil {
+				ms = ifaceMembers[to]
+			}
 			return randEntity(ms[rng.Intn(len(ms))])
 		case fkUnions:
 			ms := w.Unions[to]
+			if ms == nil {
+				ms = ifaceMembers[to]
+			}
 			return mkList(func() fake.Val { return randEntity(ms[rng.Intn(len(ms))]) })
 		case fkEnum:
 			return fake.Val{Kind: fake.VEnum, S: []string{"RED", "GREEN", "BLUE"}[rng.Intn(3)]}
@@ -367,6 +399,13 @@ func NewWorld(rng *rand.Rand, opt WorldOptions) *World {
 			}
 			q.Fields = append(q.Fields, fd)
 			w.Store.Roots["Query"][fd.Name] = mkValue(kind, to, fd.Name)
+		}
+		if si == ifaceHome {
+			for j, kind := range []fieldKind{fkUnions, fkUnion} {
+				fd := Field{Name: fmt.Sprintf("qi_%d", j), Type: typeOf(kind, "I0")}
+				q.Fields = append(q.Fields, fd)
+				w.Store.Roots["Query"][fd.Name] = mkValue(kind, "I0", fd.Name)
+			}
 		}
 		if s.Def("Node") != nil {
 			q.Fields = append(q.Fields, Field{Name: "node", Args: []Arg{{Name: "id", Type: "ID!"}}, Type: "Node"})
